@@ -46,6 +46,12 @@ def dup_union_deck(rnd):
     others = [('and', ('s', -1), ('s', -slab[0][1])), ('s', 1), ('and', ('s', 1), ('s', -2))]
     k = rnd.randint(1, 2)
     ops = [big] + rnd.sample(others, k)
+    if rnd.random() < 0.3:
+        # the other way round: the main (largest) operand is fine, every OTHER operand is empty after de-duplication
+        d.surfs.append(dk.Surf(5, 'pz', [Fr(3)]))
+        ops = [('and', ('s', -1), ('s', -2), ('s', -5)), ('and',) + tuple(slab)]
+        if rnd.random() < 0.5:
+            ops.append(('and', ('s', 1)) + tuple(slab))
     if rnd.random() < 0.5:
         rnd.shuffle(ops)
     e = ('or',) + tuple(ops)
@@ -58,9 +64,55 @@ def dup_union_deck(rnd):
     return d, pre
 
 
+def special_deck(rnd):
+    """shapes a random tree rarely has: an operand of a union that is contradictory by itself, a union that holds a
+    surface with both senses (the whole space), an explicit surface numbered like an implicit one (1000*cell+surf)."""
+    from fractions import Fraction as Fr
+    from .. import deck as dk
+    d = dk.Deck()
+    pre = []
+    a, b = gen.V('a'), gen.V('b')
+    form = rnd.choice(['contra', 'whole', 'explicit-1000'])
+    d.mats[1] = [('13027', '1.0')]
+    if form == 'contra':
+        d.surfs = [dk.Surf(1, 'px', [a]), dk.Surf(2, 'py', [b]), dk.Surf(3, 'pz', [Fr(0)]), dk.Surf(10, 'so', [Fr(10)])]
+        inner = [('and', ('s', 1), ('s', 3)), ('s', -1)]
+        if rnd.random() < 0.5:
+            inner = [('s', 1), ('s', 3), ('s', -1)]
+        rnd.shuffle(inner)
+        ops = [('and',) + tuple(inner), ('s', -2)]
+        if rnd.random() < 0.5:
+            ops.append(('and', ('s', 2), ('s', -3)))
+        rnd.shuffle(ops)
+        d.cells.append(dk.Cell(1, ('and', ('s', -10), ('or',) + tuple(ops)), mat=1, rho='-2.7', imp=1))
+        d.cells.append(dk.Cell(2, ('and', ('cell', 1), ('s', -10)), imp=1))
+        d.cells.append(dk.Cell(3, ('s', 10), imp=0))
+    elif form == 'whole':
+        d.surfs = [dk.Surf(3, rnd.choice(['px', 'pz']), [a]), dk.Surf(10, 'so', [Fr(5)]), dk.Surf(11, 'so', [Fr(8)])]
+        sg = rnd.choice([1, -1])
+        d.cells.append(dk.Cell(1, ('and', ('s', 3 * sg), ('s', -10)), mat=1, rho='-2.7', imp=1))
+        d.cells.append(dk.Cell(2, ('and', ('s', -3 * sg), ('s', -10)), imp=1))
+        u = [('cell', 1), ('cell', 2)]
+        rnd.shuffle(u)
+        d.cells.append(dk.Cell(3, ('and', ('or',) + tuple(u), ('s', 10), ('s', -11)), imp=1))
+        d.cells.append(dk.Cell(4, ('s', 11), imp=0))
+    else:
+        c, s_ = rnd.choice([(1, 5), (2, 5), (1, 7)])
+        big = 1000 * c + s_
+        d.surfs = [dk.Surf(s_, 'px', [a]), dk.Surf(big, 'py', [b]), dk.Surf(10, 'so', [Fr(10)])]
+        if rnd.random() < 0.5:
+            d.surfs.reverse()
+        d.cells.append(dk.Cell(1, ('and', ('s', -s_), ('s', -big), ('s', -10)), mat=1, rho='-2.7', imp=1))
+        d.cells.append(dk.Cell(2, ('and', ('cell', 1), ('s', -10)), imp=1))
+        d.cells.append(dk.Cell(3, ('s', 10), imp=0))
+    return d, pre
+
+
 def make(task):
     if task[0] == 'dup-union':
         return dup_union_deck(random.Random(task[1]))
+    if task[0] == 'special':
+        return special_deck(random.Random(task[1]))
     sd, nsurf, ncells, leaves = task
     rnd = random.Random(sd)
     deck, pre = gen.partition_deck(rnd, nsurf=nsurf, ncells=ncells, max_leaves=leaves)
@@ -81,6 +133,7 @@ def run(tier):
     else:
         tasks = [(base + i, 2 + i % 4, 2 + i % 4, 1 + i % 6) for i in range(4000)]
     tasks += [('dup-union', base + i) for i in range(12 if tier == 'quick' else 300)]
+    tasks += [('special', base + i) for i in range(12 if tier == 'quick' else 200)]
     for r in run_pool(worker, tasks):
         rep.merge(r)
     rep.explanation = ('Generated MCNP partition decks (cell i = e_i and not the earlier cells, written with #n) with symbolic surface '
